@@ -97,6 +97,13 @@ def run(chk):
                     (lambda eq_type=eq_type, names=names: check(SystemLoss(E, eq_type, 'PINN', terms=names, weights={g: 'omitted' for g in fields}))),
                     construct=f"system terms with an omitted weight[{eq_type}]")
 
+        # weights given as length-one arrays (set_loss_weights accepts exactly scalars and shape (1,)): same scalar terms
+        for wk in ('len1', 'len1_dict'):
+            cfg = {"loss": eq_type, "net": "PINN", "weights": wk, "terms": [t for t in names if t != 'norm'] + (['norm'] if eq_type != 'ODE' else [])}
+            chk.run("C13.R1", SITE[eq_type], cfg,
+                    (lambda eq_type=eq_type, names=names, wk=wk: check(SystemLoss(E, eq_type, 'PINN', terms=names, weights=wk))),
+                    construct=f"system terms with length-one array weights[{eq_type}]")
+
         # two system losses built one after the other keep their own weights (no state shared between instances)
         def go_two(eq_type=eq_type, names=names):
             A = SystemLoss(E, eq_type, 'PINN', terms=names, weights='dict', wprefix='wA')
